@@ -76,14 +76,18 @@ func runModeTry(procs *[]Process, tryErr bool) (exitNum int) {
 
 			if next < len(*procs) {
 				if exitNum < 1 && (*procs)[next].OperatorLogicOr {
-					i++
-					(*procs)[i].hasTerminatedM.Lock()
-					(*procs)[i].hasTerminatedV = true
-					(*procs)[i].hasTerminatedM.Unlock()
-					(*procs)[i].Stdout.Close()
-					(*procs)[i].Stderr.Close()
-					GlobalFIDs.Deregister((*procs)[i].Id)
-					(*procs)[i].State.Set(state.AwaitingGC)
+					// a skipped `||` alternative counts as succeeding: skip every
+					// following `||` alternative as well
+					for ; next < len(*procs) && (*procs)[next].OperatorLogicOr; next++ {
+						i = next
+						(*procs)[i].hasTerminatedM.Lock()
+						(*procs)[i].hasTerminatedV = true
+						(*procs)[i].hasTerminatedM.Unlock()
+						(*procs)[i].Stdout.Close()
+						(*procs)[i].Stderr.Close()
+						GlobalFIDs.Deregister((*procs)[i].Id)
+						(*procs)[i].State.Set(state.AwaitingGC)
+					}
 					continue
 				}
 
@@ -125,14 +129,18 @@ func runModeTryPipe(procs *[]Process, tryPipeErr bool) (exitNum int) {
 		next := i + 1
 		if next < len(*procs) {
 			if exitNum < 1 && (*procs)[next].OperatorLogicOr {
-				i++
-				(*procs)[i].hasTerminatedM.Lock()
-				(*procs)[i].hasTerminatedV = true
-				(*procs)[i].hasTerminatedM.Unlock()
-				(*procs)[i].Stdout.Close()
-				(*procs)[i].Stderr.Close()
-				GlobalFIDs.Deregister((*procs)[i].Id)
-				(*procs)[i].State.Set(state.AwaitingGC)
+				// a skipped `||` alternative counts as succeeding: skip every
+				// following `||` alternative as well
+				for ; next < len(*procs) && (*procs)[next].OperatorLogicOr; next++ {
+					i = next
+					(*procs)[i].hasTerminatedM.Lock()
+					(*procs)[i].hasTerminatedV = true
+					(*procs)[i].hasTerminatedM.Unlock()
+					(*procs)[i].Stdout.Close()
+					(*procs)[i].Stderr.Close()
+					GlobalFIDs.Deregister((*procs)[i].Id)
+					(*procs)[i].State.Set(state.AwaitingGC)
+				}
 				continue
 			}
 
